@@ -406,8 +406,7 @@ class Array(Node):
             return dim
         elif N == 2:
             start,step = dim[0],dim[1]-dim[0]
-            stop = start + step*length
-            return np.arange(start,stop,step)
+            return start + step*np.arange(length)
         else:
             raise Exception(f"dim vector length must be either 2 or equal to the length of the corresponding array dimension; dim vector length was {dim} and the array dimension length was {length}")
 
